@@ -62,6 +62,12 @@ C13)
         miri_leg miri 1200 "$MIRI_BASE -Zmiri-num-cpus=2 -Zmiri-many-seeds=0..4" C13 --tier quick --seed "$SEED"
         tsan_leg tsan 900 C13 --tier quick --seed "$SEED"
     fi
+    # the `ber` front end (result files): it can run once per process (it registers a Ctrl-C handler), so every
+    # scenario is its own process
+    if [ "$TIER" = thorough ]; then NCLI=16; else NCLI=4; fi
+    for i in $(seq 1 $NCLI); do
+        run_leg "cliber$i" 300 "$NATIVE" C13 --tier quick --seed "$((SEED * 1000 + i))" --leg "cliber$i"
+    done
     ;;
 C16)
     if [ "$TIER" = thorough ]; then
